@@ -55,24 +55,49 @@ example : Fns.peaks 11 = [6, 9, 10] ∧ Fns.peaks 12 = [] ∧ Fns.peaks_ok 11 = 
   rw [peaks_eq 11 (by omega), peaks_eq 12 (by omega), peaks_ok 11 (by omega)]
   simp [Pmmr.peaks, peakSizesHeight, bitLen, greedySizes, scanPeaks]
 
+/-! ## `bintree_leftmost` on the last two u64 positions
+
+`Props/XlatePmmr.lean` proves `bintree_leftmost_eq` for `pos0 + 2 < 2^64` (sufficient).  It holds for
+every u64: at `pos0 = 2^64 - 2` (height 63) and `2^64 - 1` (a leaf) the wrap of `pos0 + 2` and the
+wrap / masking of `2 << height` cancel in the wrapping subtraction. -/
+
+/-- `bintree_leftmost(pos0)` for every u64 `pos0` -/
+theorem bintree_leftmost_eq_u64 (pos : Nat) (h : pos < 2^64) :
+    Fns.bintree_leftmost pos = bintreeLeftmost pos := by
+  unfold Fns.bintree_leftmost bintreeLeftmost
+  simp only [bintree_postorder_height_eq pos h]
+  have b := (pmh_bounds pos).1
+  have hh : (peakMapHeight pos).2 < 64 := height_lt_64 h
+  unfold height shlW
+  rw [Nat.mod_eq_of_lt hh]
+  have hP : 2^(peakMapHeight pos).2 ≤ 2^63 := Nat.pow_le_pow_right (by omega) (by omega)
+  have hP1 := two_pow_pos (peakMapHeight pos).2
+  generalize 2^(peakMapHeight pos).2 = P at *
+  unfold addW subW; omega
+
+/-- the subtree below a u64 position starts at a u64 position -/
+theorem bintreeLeftmost_le (pos : Nat) : bintreeLeftmost pos ≤ pos := by
+  have hP1 := two_pow_pos (height pos)
+  unfold bintreeLeftmost; omega
+
 /-! ## `bintree_pos_iter` -/
 
 /-- `bintree_pos_iter(pos0)` = the positions `leftmost ..= pos0` (no model function: stated as the
-closed form) for `pos0 + 2 < 2^64` -/
-theorem bintree_pos_iter_eq (pos : Nat) (h : pos + 2 < 2^64) :
+closed form), for every u64 `pos0` -/
+theorem bintree_pos_iter_eq (pos : Nat) (h : pos < 2^64) :
     Fns.bintree_pos_iter pos
       = List.range' (bintreeLeftmost pos) (pos + 1 - bintreeLeftmost pos) := by
   unfold Fns.bintree_pos_iter
-  simp only [bintree_leftmost_eq pos h]
+  simp only [bintree_leftmost_eq_u64 pos h]
 
 /-- the same list as `bintree_range(pos0)` (model `bintreeRange`: start, end-exclusive) -/
-theorem bintree_pos_iter_eq_range (pos : Nat) (h : pos + 2 < 2^64) :
+theorem bintree_pos_iter_eq_range (pos : Nat) (h : pos < 2^64) :
     Fns.bintree_pos_iter pos
       = List.range' (bintreeRange pos).1 ((bintreeRange pos).2 - (bintreeRange pos).1) := by
   rw [bintree_pos_iter_eq pos h]; rfl
 
 /-- it has `2^(height+1) - 1` entries and ends in `pos0` -/
-theorem bintree_pos_iter_length (pos : Nat) (h : pos + 2 < 2^64) :
+theorem bintree_pos_iter_length (pos : Nat) (h : pos < 2^64) :
     (Fns.bintree_pos_iter pos).length = 2 * 2^(height pos) - 1 := by
   rw [bintree_pos_iter_eq pos h, List.length_range']
   have b := (pmh_bounds pos).1
@@ -95,30 +120,46 @@ example : Fns.bintree_pos_iter 9 = [7, 8, 9] ∧ Fns.bintree_pos_iter 7 = [7] :=
 theorem subW_lt (a b : Nat) : subW a b < 2^64 := by
   unfold subW; exact Nat.mod_lt _ (Nat.pow_pos (by omega))
 
-/-- `bintree_leaf_pos_iter(pos0)` for `pos0 + 2 < 2^64`: the leaf indices `start ..= end` are at
-most `2^63`, where `insertion_to_pmmr_index` agrees with the model -/
-theorem bintree_leaf_pos_iter_eq (pos : Nat) (h : pos + 2 < 2^64) :
+/-- `bintree_leaf_pos_iter(pos0)` for every u64 `pos0`: the leaf indices `start ..= end` of u64
+positions are at most `2^63`, where `insertion_to_pmmr_index` agrees with the model.
+
+Proof-engineering note: the body of `Fns.bintree_leaf_pos_iter` is (after its `let`s) a `match` on
+`pmmr_leaf_to_insertion_index (bintree_leftmost pos0)`.  `unfold` / `delta` / `rw [Fns.bintree_leaf_pos_iter]`
+on the *applied* constant make the kernel compare `Fns.bintree_leaf_pos_iter pos` with a matcher
+application; it unfolds the matcher first (matchers are abbreviations) and then evaluates the
+discriminant — wrapping arithmetic on a free variable — to weak head normal form, which runs for
+minutes into `deep recursion`.  Unfolding the *unapplied* constant (`F = Fns.bintree_leaf_pos_iter`,
+`delta … at`) compares a constant with a lambda instead: the constant is unfolded and the two bodies
+are syntactically equal. -/
+theorem bintree_leaf_pos_iter_eq (pos : Nat) (h : pos < 2^64) :
     Fns.bintree_leaf_pos_iter pos = bintreeLeafPosIter pos := by
-  unfold Fns.bintree_leaf_pos_iter bintreeLeafPosIter
-  have hl : bintreeLeftmost pos < 2^64 := by unfold bintreeLeftmost; omega
-  have hr : bintreeRightmost pos < 2^64 := by unfold bintreeRightmost; omega
-  rw [bintree_leftmost_eq pos h, bintree_rightmost_eq pos (by omega),
-    pmmr_leaf_to_insertion_index_eq _ hl, pmmr_leaf_to_insertion_index_eq _ hr]
-  cases hs : pmmrLeafToInsertionIndex (bintreeLeftmost pos) with
-  | none => simp
-  | some s =>
-    cases he : pmmrLeafToInsertionIndex (bintreeRightmost pos) with
+  have key : ∀ (F : Nat → List Nat), F = Fns.bintree_leaf_pos_iter →
+      F pos = bintreeLeafPosIter pos := by
+    intro F hF
+    delta Fns.bintree_leaf_pos_iter at hF
+    subst hF
+    show _ = _
+    unfold bintreeLeafPosIter
+    have hl : bintreeLeftmost pos < 2^64 := by have := bintreeLeftmost_le pos; omega
+    have hr : bintreeRightmost pos < 2^64 := by unfold bintreeRightmost; omega
+    simp only [bintree_leftmost_eq_u64 pos h, bintree_rightmost_eq pos h,
+      pmmr_leaf_to_insertion_index_eq _ hl, pmmr_leaf_to_insertion_index_eq _ hr]
+    cases hs : pmmrLeafToInsertionIndex (bintreeLeftmost pos) with
     | none => simp
-    | some e =>
-      have hb := pmh_fst_le hr
-      have hle : e ≤ 2^63 := by
-        unfold pmmrLeafToInsertionIndex at he
-        simp only at he
-        split at he
-        · injection he with he; omega
-        · cases he
-      exact map_range'_eq Fns.insertion_to_pmmr_index insertionToPmmrIndex s (e + 1 - s)
-        (fun i hi => insertion_to_pmmr_index_eq (s + i) (by omega))
+    | some s =>
+      cases he : pmmrLeafToInsertionIndex (bintreeRightmost pos) with
+      | none => simp
+      | some e =>
+        have hb := pmh_fst_le hr
+        have hle : e ≤ 2^63 := by
+          unfold pmmrLeafToInsertionIndex at he
+          simp only at he
+          split at he
+          · injection he with he; omega
+          · cases he
+        exact map_range'_eq Fns.insertion_to_pmmr_index insertionToPmmrIndex s (e + 1 - s)
+          (fun i hi => insertion_to_pmmr_index_eq (s + i) (by omega))
+  exact key _ rfl
 
 theorem bintree_leaf_pos_iter_ok (pos : Nat) (h : pos < 2^64) :
     Fns.bintree_leaf_pos_iter_ok pos = true := by
@@ -147,5 +188,25 @@ example : Fns.bintree_leaf_pos_iter 6 = [0, 1, 3, 4] ∧ Fns.bintree_leaf_pos_it
   simp [bintreeLeafPosIter, bintreeLeftmost, bintreeRightmost, height, p6, p9,
     pmmrLeafToInsertionIndex, p0, p4, p7, p8, insertionToPmmrIndex, List.range, List.range.loop,
     mmr_zero, m1, m2, m3, m4, m5]
+
+/-- the last u64 position `2^64 - 1` is leaf number `2^63`: all three functions agree with the
+model there although `pos0 + 2` wraps -/
+example : Fns.bintree_leftmost (2^64 - 1) = 2^64 - 1 ∧ Fns.bintree_pos_iter (2^64 - 1) = [2^64 - 1]
+    ∧ Fns.bintree_leaf_pos_iter (2^64 - 1) = [2^64 - 1] := by
+  have pc : popcount (2^63) = 1 := by simp [popcount]
+  have m : mmr (2^63) = 2^64 - 1 := by unfold mmr; rw [pc]
+  have p := peakMapHeight_leaf (2^63); rw [m] at p
+  have hh : height (2^64 - 1) = 0 := by simp [height, p]
+  have hl : bintreeLeftmost (2^64 - 1) = 2^64 - 1 := by unfold bintreeLeftmost; rw [hh]
+  have hr : bintreeRightmost (2^64 - 1) = 2^64 - 1 := by unfold bintreeRightmost; rw [hh]
+  have hi : pmmrLeafToInsertionIndex (2^64 - 1) = some (2^63) := by
+    simp [pmmrLeafToInsertionIndex, p]
+  refine ⟨?_, ?_, ?_⟩
+  · rw [bintree_leftmost_eq_u64 _ (by omega), hl]
+  · rw [bintree_pos_iter_eq _ (by omega), hl]; rfl
+  · rw [bintree_leaf_pos_iter_eq _ (by omega)]
+    unfold bintreeLeafPosIter
+    rw [hl, hr, hi]
+    simp [insertionToPmmrIndex, m, List.range, List.range.loop]
 
 end GV.Props.XlatePmmr2
